@@ -80,6 +80,9 @@ def run(rep):
         tok.run_bmc(rep, core, "bmc-" + delivery, min(b["N"], 6), (0,), (False,), oblig, replay_fn, delivery=delivery)
     # "for every frame type": frames that are falsy objects are frames like any other
     tok.run_bmc(rep, core, "bmc-falsy-frames", min(b["N"], 6), (0, 6), (False,), oblig, replay_fn, falsy=True)
+    tok.run_bmc(rep, core, "bmc-mixed-frame-types", min(b["N"], 6), (0, 6), (False,), oblig, replay_fn, falsy="mixed")
+    # "every validator": one that answers True or None
+    tok.run_bmc(rep, core, "bmc-true-or-none-validator", min(b["N"], 6), (0, 6), (False,), oblig, replay_fn, falsy="none-validator")
     rep.witness("some path delivers >= 2 tokens", any(h["harness"].startswith("bmc") for h in rep.harnesses))
     if not closed:
         rep.notes.append("invariant not inductive on this tree; claim reduced to the bounded runs")
